@@ -26,10 +26,7 @@ func (m *Mutex) free() bool { return !m.held }
 
 // Lock is a schedule point; enabled while the mutex is free.
 func (m *Mutex) Lock() {
-	if vrt.Aborting() {
-		vrt.Point("mutex.lock", nil) // panics with the abort sentinel
-	}
-	vrt.Point("mutex.lock", m.free)
+	vrt.Point("mutex.lock", m.free, m)
 	m.held = true
 	m.owner = vrt.Self()
 	m.rm.lock()
@@ -37,7 +34,7 @@ func (m *Mutex) Lock() {
 
 // TryLock is a schedule point that never blocks.
 func (m *Mutex) TryLock() bool {
-	vrt.Point("mutex.trylock", nil)
+	vrt.Point("mutex.trylock", nil, m)
 	if m.held {
 		return false
 	}
@@ -58,6 +55,7 @@ func (m *Mutex) Unlock() {
 	m.rm.unlock()
 	m.held = false
 	m.owner = nil
+	vrt.Touch(m)
 }
 
 // Held reports the model state (for oracles in controller context).
@@ -75,16 +73,13 @@ func (m *RWMutex) canW() bool { return !m.w && m.readers == 0 }
 func (m *RWMutex) canR() bool { return !m.w }
 
 func (m *RWMutex) Lock() {
-	if vrt.Aborting() {
-		vrt.Point("rwmutex.lock", nil)
-	}
-	vrt.Point("rwmutex.lock", m.canW)
+	vrt.Point("rwmutex.lock", m.canW, m)
 	m.w = true
 	m.rm.lock()
 }
 
 func (m *RWMutex) TryLock() bool {
-	vrt.Point("rwmutex.trylock", nil)
+	vrt.Point("rwmutex.trylock", nil, m)
 	if !m.canW() {
 		return false
 	}
@@ -102,19 +97,17 @@ func (m *RWMutex) Unlock() {
 	}
 	m.rm.unlock()
 	m.w = false
+	vrt.Touch(m)
 }
 
 func (m *RWMutex) RLock() {
-	if vrt.Aborting() {
-		vrt.Point("rwmutex.rlock", nil)
-	}
-	vrt.Point("rwmutex.rlock", m.canR)
+	vrt.Point("rwmutex.rlock", m.canR, m)
 	m.readers++
 	m.rm.rlock()
 }
 
 func (m *RWMutex) TryRLock() bool {
-	vrt.Point("rwmutex.tryrlock", nil)
+	vrt.Point("rwmutex.tryrlock", nil, m)
 	if !m.canR() {
 		return false
 	}
@@ -132,6 +125,7 @@ func (m *RWMutex) RUnlock() {
 	}
 	m.rm.runlock()
 	m.readers--
+	vrt.Touch(m)
 }
 
 type rlocker RWMutex
@@ -168,31 +162,54 @@ func (c *Cond) Wait() {
 	}
 	w := &condWaiter{t: vrt.Self()}
 	c.waiters = append(c.waiters, w)
+	vrt.Touch(c)
 	c.L.Unlock()
-	vrt.Point("cond.wait", w.ready)
+	vrt.Point("cond.wait", w.ready, c)
 	c.ra.Acquire()
 	c.L.Lock()
 }
 
 // Signal is a schedule point; wakes the oldest waiter if any.
 func (c *Cond) Signal() {
-	vrt.Point("cond.signal", nil)
+	vrt.Point("cond.signal", nil, c)
 	c.Wakes = append(c.Wakes, c.nWaiting())
 	c.ra.Release()
 	for i, w := range c.waiters {
 		if !w.signaled {
 			w.signaled = true
+			vrt.LogEvent("cond.wake", "signal", c.ids(w)...)
 			c.waiters = append(c.waiters[:i:i], c.waiters[i+1:]...)
 			return
 		}
 	}
+	vrt.LogEvent("cond.wake", "signal", 0)
+}
+
+// ids renders a wake event: [number woken, woken thread ids..., -1, registered-but-not-woken ids...].
+func (c *Cond) ids(only *condWaiter) []int {
+	var woken, rest []int
+	for _, w := range c.waiters {
+		id := -1
+		if w.t != nil {
+			id = w.t.ID
+		}
+		if only == nil || w == only {
+			woken = append(woken, id)
+		} else {
+			rest = append(rest, id)
+		}
+	}
+	out := append([]int{len(woken)}, woken...)
+	out = append(out, -1)
+	return append(out, rest...)
 }
 
 // Broadcast is a schedule point; wakes every registered waiter.
 func (c *Cond) Broadcast() {
-	vrt.Point("cond.broadcast", nil)
+	vrt.Point("cond.broadcast", nil, c)
 	c.Wakes = append(c.Wakes, c.nWaiting())
 	c.ra.Release()
+	vrt.LogEvent("cond.wake", "broadcast", c.ids(nil)...)
 	for _, w := range c.waiters {
 		w.signaled = true
 	}
@@ -220,6 +237,7 @@ func (wg *WaitGroup) Add(delta int) {
 		wg.ra.Release()
 	}
 	wg.n += delta
+	vrt.Touch(wg)
 	if wg.n < 0 {
 		panic("sync: negative WaitGroup counter")
 	}
@@ -237,7 +255,7 @@ func (wg *WaitGroup) Go(f func()) {
 }
 
 func (wg *WaitGroup) Wait() {
-	vrt.Point("waitgroup.wait", wg.zero)
+	vrt.Point("waitgroup.wait", wg.zero, wg)
 	wg.ra.Acquire()
 }
 
@@ -251,7 +269,7 @@ type Once struct {
 func (o *Once) notRunning() bool { return !o.running }
 
 func (o *Once) Do(f func()) {
-	vrt.Point("once.do", o.notRunning)
+	vrt.Point("once.do", o.notRunning, o)
 	if o.done {
 		o.ra.Acquire()
 		return
@@ -260,6 +278,7 @@ func (o *Once) Do(f func()) {
 	defer func() {
 		o.done = true
 		o.running = false
+		vrt.Touch(o)
 		o.ra.Release()
 	}()
 	f()
@@ -272,14 +291,14 @@ type Map struct {
 }
 
 func (m *Map) Load(key any) (any, bool) {
-	vrt.Point("syncmap.load", nil)
+	vrt.Point("syncmap.load", nil, m)
 	m.ra.Acquire()
 	v, ok := m.m[key]
 	return v, ok
 }
 
 func (m *Map) Store(key, value any) {
-	vrt.Point("syncmap.store", nil)
+	vrt.Point("syncmap.store", nil, m)
 	if m.m == nil {
 		m.m = map[any]any{}
 	}
@@ -288,7 +307,7 @@ func (m *Map) Store(key, value any) {
 }
 
 func (m *Map) LoadOrStore(key, value any) (any, bool) {
-	vrt.Point("syncmap.loadorstore", nil)
+	vrt.Point("syncmap.loadorstore", nil, m)
 	m.ra.Acquire()
 	if v, ok := m.m[key]; ok {
 		return v, true
@@ -302,7 +321,7 @@ func (m *Map) LoadOrStore(key, value any) (any, bool) {
 }
 
 func (m *Map) LoadAndDelete(key any) (any, bool) {
-	vrt.Point("syncmap.loadanddelete", nil)
+	vrt.Point("syncmap.loadanddelete", nil, m)
 	m.ra.Acquire()
 	v, ok := m.m[key]
 	delete(m.m, key)
@@ -311,13 +330,13 @@ func (m *Map) LoadAndDelete(key any) (any, bool) {
 }
 
 func (m *Map) Delete(key any) {
-	vrt.Point("syncmap.delete", nil)
+	vrt.Point("syncmap.delete", nil, m)
 	delete(m.m, key)
 	m.ra.Release()
 }
 
 func (m *Map) Range(f func(key, value any) bool) {
-	vrt.Point("syncmap.range", nil)
+	vrt.Point("syncmap.range", nil, m)
 	m.ra.Acquire()
 	type kv struct{ k, v any }
 	var all []kv
